@@ -314,6 +314,7 @@ def _suite_real_runs(tier):
         c.count("boundaries:" + ((("periodic" if cfg["periodic"] else "") + ("+reflective" if cfg["reflective"] else "")) or "hard"))
         c.count("metric:" + ("volume_variation" if cfg["volume_variation"] else "ess"))
         c.count("support:" + (cfg.get("hole") or "full"))
+        c.count("sequence:" + (cfg.get("sequence") or "single_run"))
         if cfg.get("raised"):
             c.count("run_raised(" + cfg["mode"] + ")")
     for f in found:
@@ -369,11 +370,12 @@ def _oracle_real_runs(rng, n_runs, log=None, stop_after=3):
         # part of the prior has zero likelihood: "half" (x0 > 0.3), "tiny" (only u0 < 0.06 is supported: with 16 particles
         # about one warm-up batch in three has NO finite draw, which drives the redraw loop of /repo 959029e)
         hole = rng.choice([None, None, "half", "tiny"])
+        sequence = rng.choice([None, None, None, "load_into_used", "load_into_used", "reload_earlier", "run_resume_used"])
         per = [0] if (d >= 2 and rng.random() < 0.3) else None
         refl = [d - 1] if (d >= 2 and rng.random() < 0.3 and (per is None or d - 1 not in per)) else None
         vv = rng.choice([None, None, 0.5])
         cfg = dict(d=d, kernel=kernel, resample=resample, clustering=clustering, mode=mode, periodic=per, reflective=refl, volume_variation=vv,
-                   pool=use_pool, n_max_steps=n_max_steps, resume_at=resume_at, hole=hole)
+                   pool=use_pool, n_max_steps=n_max_steps, resume_at=resume_at, hole=hole, sequence=sequence)
         if log is not None:
             log.append(cfg)
 
@@ -492,34 +494,82 @@ def _oracle_real_runs(rng, n_runs, log=None, stop_after=3):
                     ret = s.sample()
                     verify("after commit")
                     verify("dictionary returned by sample()", ret)
-                # everything committed, as results() / get_history hand it out: one coherent batch per iteration under every key
-                res = s.results()
-                nb = len(res["u"])
-                if not (len(res["x"]) == len(res["logl"]) == nb) or (has_blobs and len(res["blobs"]) != nb):
-                    bad.append("results(): the record keys hold different numbers of batches")
-                else:
-                    for k in range(nb):
-                        verify(f"results() batch {k}", {"u": res["u"][k], "x": res["x"][k], "logl": res["logl"][k],
-                                                        "blobs": res["blobs"][k] if has_blobs else None})
-                        if not np.array_equal(res["u"][k], s.state.get_history("u", k)):
-                            bad.append(f"results() batch {k} differs from get_history('u', {k})")
-                # returned to the user
-                for res_, trim_ in ((False, True), (True, True), (True, False), (False, False)):
-                    out = s.posterior(return_blobs=has_blobs, return_logw=True, resample=res_, trim_importance_weights=trim_)
-                    xs, ws, ls = out[0], out[1], out[2]
-                    where = f"posterior(resample={res_}, trim_importance_weights={trim_})"
-                    if has_blobs and len(out) != 5:
-                        bad.append(f"{where}: return_blobs=True returned no blobs although the likelihood has blobs")
-                        break
-                    for i in range(len(xs)):
-                        if L1(xs[i]) != ls[i] or not np.isfinite(ls[i]):
-                            bad.append(f"{where}: row {i} logl != L(x) (or infinite)")
+                def readback(tag=""):
+                    # everything committed, as results() / get_history hand it out: one coherent batch per iteration under every key
+                    res = s.results()
+                    nb = len(res["u"])
+                    if not (len(res["x"]) == len(res["logl"]) == nb) or (has_blobs and len(res["blobs"]) != nb):
+                        bad.append(tag + "results(): the record keys hold different numbers of batches")
+                    else:
+                        for k in range(nb):
+                            verify(f"{tag}results() batch {k}", {"u": res["u"][k], "x": res["x"][k], "logl": res["logl"][k],
+                                                            "blobs": res["blobs"][k] if has_blobs else None})
+                            if not np.array_equal(res["u"][k], s.state.get_history("u", k)):
+                                bad.append(f"{tag}results() batch {k} differs from get_history('u', {k})")
+                    # returned to the user
+                    for res_, trim_ in ((False, True), (True, True), (True, False), (False, False)):
+                        out = s.posterior(return_blobs=has_blobs, return_logw=True, resample=res_, trim_importance_weights=trim_)
+                        xs, ws, ls = out[0], out[1], out[2]
+                        where = f"{tag}posterior(resample={res_}, trim_importance_weights={trim_})"
+                        if has_blobs and len(out) != 5:
+                            bad.append(f"{where}: return_blobs=True returned no blobs although the likelihood has blobs")
                             break
-                        if has_blobs and (len(out[3]) != len(xs) or not blob_ok(out[3][i], xs[i])):
-                            bad.append(f"{where}: row {i} blob != blob(x)")
+                        for i in range(len(xs)):
+                            if L1(xs[i]) != ls[i] or not np.isfinite(ls[i]):
+                                bad.append(f"{where}: row {i} logl != L(x) (or infinite)")
+                                break
+                            if has_blobs and (len(out[3]) != len(xs) or not blob_ok(out[3][i], xs[i])):
+                                bad.append(f"{where}: row {i} blob != blob(x)")
+                                break
+                        if bad:
                             break
-                    if bad:
-                        break
+                readback()
+                # ---- operation sequences on ONE sampler object that has already been used (a finished / queried sampler keeps
+                # whatever it caches about its own history): a foreign or an earlier state is loaded INTO it, then everything is
+                # read back and the run goes on.  Lengths are chosen so that nothing can fail on a shape.
+                if sequence is not None and not bad:
+                    import os
+                    import tempfile
+                    fd, path = tempfile.mkstemp(suffix=".state")
+                    os.close(fd)
+                    try:
+                        s.save_state(path)
+                        if sequence == "reload_earlier":
+                            # go on for two iterations, query, then load the earlier checkpoint back into the same object
+                            s.sample()
+                            s.sample()
+                            s.posterior(return_blobs=has_blobs)
+                            s.load_state(path)
+                        else:
+                            s1 = s
+                            s = make()
+                            core = s._core
+                            instrument(core)
+                            np.random.seed(seed + 1)
+                            core._initialize_fresh()
+                            for _ in range(6):
+                                s.sample()                      # its own, different, history of the same length
+                            if rng.random() < 0.7:
+                                s.state.compute_logw_and_logz(1.0)       # what run()'s epilogue leaves behind
+                            else:
+                                s.posterior(return_blobs=has_blobs)
+                            if sequence == "load_into_used":
+                                s.load_state(path)
+                            else:                               # run(resume_state_path=…) on the used object
+                                s.run(n_total=8, progress=False, resume_state_path=path)
+                    finally:
+                        for q in (path, path + ".temp"):
+                            if os.path.exists(q):
+                                os.remove(q)
+                    core = s._core
+                    verify(f"[{sequence}] current set after the load")
+                    readback(f"[{sequence}] ")
+                    if not bad:
+                        for _ in range(2):
+                            ret = s.sample()
+                            verify(f"[{sequence}] after commit")
+                            verify(f"[{sequence}] dictionary returned by sample()", ret)
+                        readback(f"[{sequence}, two iterations later] ")
         except Exception as e:  # noqa
             # crashes are other properties' business (C18); not a coherence violation — but a run that raised checked
             # nothing after that point, so it is made visible in the evidence histogram
